@@ -515,9 +515,12 @@ func (in *Interp) harnessIntrinsic(fn *ssa.Function, name string, args []Value) 
 			return true, c.Bool(false)
 		}
 		return true, c.Bool(in.obj(p.P.ID).released)
-	case "vSameObject":
+	case "vOverlap":
 		a, b := args[0].(SliceV), args[1].(SliceV)
-		return true, c.Bool(a.P.ID != 0 && a.P.ID == b.P.ID)
+		if a.Cap == 0 || b.Cap == 0 || a.P.ID == 0 || a.P.ID != b.P.ID {
+			return true, c.Bool(false)
+		}
+		return true, c.Bool(a.P.Off < b.P.Off+b.Cap && b.P.Off < a.P.Off+a.Cap)
 	}
 	return false, nil
 }
